@@ -52,7 +52,7 @@ def main():
     na = [{"property_id": p, "reason": r} for p, r in NA] + [{"property_id": p, "reason": r} for p, r in sorted(PENDING.items())]
     m = {
         "version": 1,
-        "setup_cmd": "cd sim && CARGO_NET_OFFLINE=true cargo build --release --offline",
+        "setup_cmd": "cd sim && CARGO_NET_OFFLINE=true cargo build --release --offline && cd ../sim2 && CARGO_NET_OFFLINE=true cargo build --release --offline",
         "hooks": {
             "guard": "--cfg nomt_verif",
             "enable": "built only through /verif/sim (shadow manifest sim/nomt-shadow compiles /repo/nomt/src against shim crates; sim/.cargo/config.toml sets rustflags --cfg nomt_verif)",
